@@ -190,11 +190,22 @@ func describeAgainst(got, before, after observation) string {
 	return b.String()
 }
 
-// tornKind names what is wrong with an inadmissible observation (for counters / report).
+// tornKind names what is wrong with an inadmissible observation (for keys / counters / report).
+// "patch-record-only": frontier pointer, keys and every view are those of an admissible state
+// and the only deviation is a redo/undo record stored for a height above the frontier pointer
+// found (nothing in the node reads such a record; the next commit at that height overwrites it).
 func tornKind(got, before, after observation) string {
-	onlyPatches := func(names []string) bool {
+	fh := uint64(0)
+	fmt.Sscanf(got.get("frontier-pointer"), "%d/", &fh)
+	strayOnly := func(names []string) bool {
 		for _, n := range names {
-			if !strings.HasPrefix(n, "redo-patch@") && !strings.HasPrefix(n, "undo-patch@") {
+			var h uint64
+			if _, err := fmt.Sscanf(n, "redo-patch@%d", &h); err != nil {
+				if _, err := fmt.Sscanf(n, "undo-patch@%d", &h); err != nil {
+					return false
+				}
+			}
+			if h <= fh {
 				return false
 			}
 		}
@@ -203,14 +214,20 @@ func tornKind(got, before, after observation) string {
 	db_ := got.diffNames(before)
 	da := got.diffNames(after)
 	switch {
-	case onlyPatches(db_):
+	case strayOnly(db_):
 		return "patch-record-only(otherwise-before)"
-	case onlyPatches(da):
+	case strayOnly(da):
 		return "patch-record-only(otherwise-after)"
 	case got.get("frontier-pointer") == before.get("frontier-pointer"):
+		if got.get("keys") == before.get("keys") {
+			return "old-pointer-old-keys-but-patches-or-views-wrong"
+		}
 		return "old-pointer-with-changed-keys"
 	case got.get("frontier-pointer") == after.get("frontier-pointer"):
-		return "new-pointer-with-keys-or-views-wrong"
+		if got.get("keys") == after.get("keys") {
+			return "new-pointer-new-keys-but-patches-or-views-wrong"
+		}
+		return "new-pointer-with-keys-missing"
 	default:
 		return "other"
 	}
